@@ -27,10 +27,12 @@ from . import e2e
 SCHEMA_A = '''
 schema { query: Query mutation: Mutation }
 """root"""
-type Query { user(id: ID!, filter: Filter): User  search(text: String = "x", kinds: [Kind!] = [A]): [Result!]!  _service(where: _text_exp, any: _Any): _Service }
+directive @oneOf on INPUT_OBJECT
+directive @tagged(name: String) on FIELD_DEFINITION | INPUT_FIELD_DEFINITION | OBJECT | ENUM_VALUE | ARGUMENT_DEFINITION
+type Query { user(id: ID!, filter: Filter): User  lookup(by: Lookup @tagged(name: "arg")): User  search(text: String = "x", kinds: [Kind!] = [A]): [Result!]!  _service(where: _text_exp, any: _Any): _Service }
 type Mutation { update(data: UserInput!, opts: Options = {dry: true, level: 2}): User }
 """a user"""
-type User implements Node { id: ID! name: String kind: Kind! friends: [User!] }
+type User implements Node { id: ID! name: String kind: Kind! friends: [User!] seen: Instant uid: Ident }
 type Post implements Node { id: ID! title: String! }
 interface Node { id: ID! }
 union Result = User | Post
@@ -49,7 +51,12 @@ input Filter { kind: Kind = B  tags: [String!] = ["t", "u"]  limit: Int! = 10  n
 input Options { dry: Boolean = false  level: Int! = 1  kinds: [Kind] = [A, null]  inner: Inner = {v: "q", k: B} }
 input Inner { v: String!  k: Kind = A  more: [Inner!] }
 input UserInput { name: String!  age: Int  filter: Filter = {limit: 3}  camelCase: String = "cc"  when: DateTime }
-scalar DateTime
+scalar DateTime @specifiedBy(url: "https://tools.ietf.org/html/rfc3339")
+"a scalar without configuration: Any from every source, whatever its SDL says"
+scalar Instant @specifiedBy(url: "https://tools.ietf.org/html/rfc3339")
+scalar Ident @specifiedBy(url: "https://tools.ietf.org/html/rfc4122")
+"information that only the SDL carries (applied directives) must not change what is generated"
+input Lookup @oneOf { byId: ID @tagged(name: "x")  byName: String  at: DateTime  seen: Instant  uid: Ident }
 '''
 
 QUERIES_A = '''
@@ -57,6 +64,7 @@ query GetUser($id: ID!, $f: Filter = {limit: 2}) { user(id: $id, filter: $f) { i
 query Search($t: String, $k: [Kind!]) { search(text: $t, kinds: $k) { __typename ... on User { id name } ... on Post { title } } }
 mutation Update($d: UserInput!, $o: Options) { update(data: $d, opts: $o) { id } }
 query Service($w: _text_exp) { _service(where: $w) { sdl } }
+query Lookup($by: Lookup, $at: DateTime!, $seen: Instant!) { lookup(by: $by) { id seen uid } again: lookup(by: {at: $at}) { id } more: lookup(by: {seen: $seen}) { id } }
 '''
 
 SCHEMA_B = '''
@@ -204,6 +212,19 @@ def _strip_docs(src):
     return ast.unparse(t)
 
 
+def _shape_of_inputs(src):
+    """input_types.py without doc strings and without the default values of the fields (those are compared semantically,
+    field by field): classes, bases, field names and annotations, validators / methods, model_rebuild calls, imports"""
+    import ast
+    t = ast.parse(_strip_docs(src))
+    for n in ast.walk(t):
+        if isinstance(n, ast.ClassDef):
+            for st in n.body:
+                if isinstance(st, ast.AnnAssign):
+                    st.value = None
+    return sorted(ast.unparse(st) for st in t.body)
+
+
 def _norm(fname, src):
     """the order of the class definitions of input_types.py / enums.py follows the order of the schema's definitions
     and is not part of the statement (`identical result models, enums, ...`): compared as a set of statements"""
@@ -258,6 +279,8 @@ def compare_sources(name, sdl, queries, tier):
                 want = dict(url="http://schema.example/graphql", headers={"Authorization": "$2y$10$secret-token", "X-Plain": "plain"}, verify=verify)
                 if len(fake.seen) != 1 or {k: fake.seen[0][k] for k in want} != want:
                     bad.append("configured-url-headers-and-tls-flag-are-what-is-sent")
+                if "input_types.py" in files and "input_types.py" in base and _shape_of_inputs(files["input_types.py"]) != _shape_of_inputs(base["input_types.py"]):
+                    bad.append("input-types-differ-beyond-field-defaults")
                 for f in sorted(set(files) | set(base)):
                     if f == "input_types.py":
                         continue
